@@ -308,6 +308,14 @@ RULE = ("Real kvarn::handle_connection on loopback TCP pairs, TLS by a rustls Se
         "against the model of the two front ends (HTTP/1: answered iff the head is at most 16384 bytes, else the connection is ended "
         "without an answer; HTTP/2: answered, the header list staying below h2's default limit) and the specification (a request the "
         "HTTP/1 front end answers is answered the same over HTTP/2; 'not answered' counts only if a second run agrees). "
+        "(6) proto.rst: STREAMS THE CLIENT HAS RESET, on an HTTP/2 connection (TLS, ALPN h2) whose frames the harness writes by hand: the "
+        "preface, SETTINGS, one HEADERS frame per request (2 - 24 requests: pages whose handlers sleep 0 - 250 ms, pages, files, 404, 204, "
+        "streamed) and RST_STREAM(CANCEL) for 0 - 4 of them IN ONE WRITE, so that the server's accept loop is handed streams that are "
+        "already reset - on hosts without and with the request limiter (the first k requests pass, the rest are answered 429 by the loop "
+        "itself): the streams that were answered completely, their status (HPACK: static index or literal, the dynamic table switched off) and "
+        "whether the connection still answers a PING, against the model of the accept loop (h2_accept_loop) and the specification "
+        "(every stream that was not reset is answered - 200 / 404 / 204 / 429 - and the connection goes on; an outcome in which the "
+        "connection ended counts only if a second run agrees). "
         "THE END OF AN HTTP/1.1 CONNECTION: the client records HOW a connection ended after `connection: close` - over TLS orderly = "
         "the close_notify alert arrived before the end of the TCP stream (rustls reports its absence), over plain TCP = FIN, not a "
         "reset. A body that only the end of the connection delimits (no content-length, not HEAD) counts as received only after an "
@@ -350,6 +358,11 @@ ASSUMPTIONS = [
     "(lookup / insert) separated by the await on the handler; moka as a finite map whose capacity is never reached; a stream the "
     "client cancels is a stream whose answer is not observed (its task may run none, one or both of its blocks: every schedule is "
     "covered); the tasks of two connections to one host share exactly what the tasks of one connection share (the host)",
+    "streams the client resets (reset_stream_is_its_own): which requests the limiter answers is an input (C12's); a stream that "
+    "is reset and handed to a task is that task's business (its failing writes end the task, stream_independence covers its effects "
+    "on the cache); a task's answer reaches the client if the connection is still polled when it is written - true of the repaired "
+    "loop for every batch; the 409 answer for an unknown host ends the connection by design and is not part of the batches; beyond "
+    "3 * limit requests the limiter drops the connection (LimitAction::Drop, by design: not generated)",
     "compression: the representation clone_preferred chooses is a function of request and response, not of the cache path "
     "(the harness gives compression_options_oneshot = compression_options_cached); which bytes a compressor emits is external: "
     "the layer-4 response is observed, not predicted",
@@ -384,6 +397,9 @@ ASSUMPTIONS = [
 TRUSTED = [
     "modelled (Model/Protocols.v): src/lib.rs handle_connection (alt-svc append, per-request task for HTTP/2, the way the HTTP/1 request "
     "loop is left - break, then HttpConnection::shutdown: close_notify on TLS; shutdown = false is the variant that returns instead -, "
+    "the HTTP/2 accept loop with streams the client has reset: the limiter's 429 written by the loop itself, its failure on a reset "
+    "stream - ClientRefusedResponse - now a continue: fix 2bfb61f, cont = false is the code before, which returned and dropped the "
+    "connection with every unwritten answer; "
     "the request-head limits of the two front ends: HttpConnection::accept's 16 * 1024 for kvarn_async::read::request and - h2 0.4 "
     "frame/headers.rs load_hpack, transcribed - name + value + 32 per field against h2's default header-list limit, which "
     "HttpConnection::new leaves in place; the HTTP/1 request loop "
@@ -412,7 +428,9 @@ TRUSTED = [
     "layer 4 (handle_cache and below) is C03's model in the theorems and an OBSERVATION of the real handle_cache on an identical "
     "fresh host in the correspondence (proto.l4: response, sanitize class, what the response's future writes and the overridden "
     "length); the twin hosts are deterministic functions of the configuration",
-    "harness/src/c20.rs: raw HTTP/1.1 client (strict status line / header / content-length framing, sentinel request; how a connection "
+    "harness/src/c20.rs: the hand-written HTTP/2 client of proto.rst (frame headers, HPACK literals without indexing for the request, "
+    ":status decoded from the static index or a literal incl. the Huffman code of three digits, SETTINGS_HEADER_TABLE_SIZE = 0, PING); "
+    "raw HTTP/1.1 client (strict status line / header / content-length framing, sentinel request; how a connection "
     "ended is taken from tokio-rustls: read = 0 only after close_notify, an error otherwise), h2 client "
     "driver, rcgen certificate, Package / H_slow / echo / echon / echo2 / stream / read-body extensions; header multisets are sorted "
     "before comparison, the value of last-modified is masked; the echo handlers echo what read_to_bytes returned UNCUT on a "
@@ -420,7 +438,7 @@ TRUSTED = [
     "the limit: that yields the specification 'the first l bytes'); the classification of failures into harness trouble / outcome "
     "(is_trouble, three agreeing runs)",
 ]
-LEVEL_TEXT = ("partial. Machine-checked Coq theorems (35, statements pinned) over an executable model of the protocol-dependent path above "
+LEVEL_TEXT = ("partial. Machine-checked Coq theorems (37, statements pinned) over an executable model of the protocol-dependent path above "
               "the shared layer 4 of C03: protocol_parity / send_parity (for every host configuration, cache state, request, layer-4 "
               "response, TLS or plain HTTP/1 connection and oblivious Package chain the HTTP/1.1 and HTTP/2 answers are equal after "
               "dropping the version and exactly the headers connection, keep-alive, proxy-connection, transfer-encoding, upgrade, te, "
@@ -460,8 +478,11 @@ LEVEL_TEXT = ("partial. Machine-checked Coq theorems (35, statements pinned) ove
               "connection end in it, which is what the correspondence runs, IS the one of the history theorems); REQUEST HEADS: "
               "head_accepted_by_both (every request head the HTTP/1 front end accepts - at most 16384 bytes - is below any HTTP/2 "
               "header-list limit above 128 KiB, in particular h2's default 16 MiB which kvarn leaves in place, and has at most 4096 "
-              "fields: no request is answered over HTTP/1.1 and refused 431 over HTTP/2); and "
-              "nine witnesses: close_without_notify_refuted (leaving the request loop by return instead of break: the streamed answer "
+              "fields: no request is answered over HTTP/1.1 and refused 431 over HTTP/2); RESET STREAMS: reset_stream_is_its_own "
+              "(for every batch of HTTP/2 streams - answered by the limiter or by tasks of their own, reset by the client or not, in any "
+              "combination - every stream that was not reset receives its own answer and the connection is still served); and "
+              "ten witnesses: reset_limited_stream_v0_refuted (before fix 2bfb61f a reset stream that the limiter answers ended the whole "
+              "connection: of six streams only the 429 written before it arrived), close_without_notify_refuted (leaving the request loop by return instead of break: the streamed answer "
               "of unknown length is complete over HTTP/2 and plain HTTP/1.1 and cannot be told from a truncated one over TLS), "
               "small_header_list_limit_refuted (16 KiB as HTTP/2 header-list limit is not 'the same limit' as the 16 KiB HTTP/1 head: "
               "450 small fields, a head of 4.5 kB, are answered 200 over HTTP/1.1 and 431 over HTTP/2), close_delimited_not_last_refuted (after a streamed answer of unknown length the HTTP/1 connection "
@@ -479,8 +500,8 @@ LEVEL_TEXT = ("partial. Machine-checked Coq theorems (35, statements pinned) ove
               "head limit; how every HTTP/1.1 connection that the server ends is ended - close_notify or not). NOT proved, only exercised "
               "by that run: everything inside the h2 and rustls crates - HPACK, flow control, frame splitting and scheduling, stream "
               "state machine, RST_STREAM handling, TLS and ALPN - and the tokio scheduler; the concurrency theorem is about "
-              "sequentially consistent interleavings of two atomic blocks per task. Two kvarn defects found by this round were "
-              "repaired (d63bba7, d675f8a) and are part of the claim, as is the former known class h1-unread-request-body (dfe4d54); "
+              "sequentially consistent interleavings of two atomic blocks per task. Three kvarn defects found by these rounds were "
+              "repaired (d63bba7, d675f8a, 2bfb61f) and are part of the claim, as is the former known class h1-unread-request-body (dfe4d54); "
               "the model describes /repo main with the repairs of all properties merged (7334433, 89e2956, 3c296af, 21f0154, "
               "9ae9b1a, the Http1Body repairs of C07, the request-parser repairs aca6293 / 2dbf4ed on the input side). "
               "Two known classes, both outside the property's quantifier: h1-undeclared-request-body (kvarn's HTTP/1 reader ignores "
